@@ -85,6 +85,14 @@ int main(int argc, char** argv)
                 if (op == 'Q' && sem.empty()) {
                     std::string s1, s2, k2;
                     bool eq = false;
+                    // is the expression accepted by the type checker (the property speaks about accepted expressions)?
+                    bool typeok = false;
+                    try {
+                        doc.clear_errors();
+                        TypeChecker tc(doc);
+                        expression_t ec = e.clone_deeper();
+                        typeok = tc.checkExpression(ec) && !doc.has_errors();
+                    } catch (std::exception&) { typeok = false; }
                     try {
                         s1 = e.str();
                         doc.clear_errors();
@@ -98,7 +106,7 @@ int main(int argc, char** argv)
                             s2 = e2.str();
                         }
                     } catch (std::exception& ex) { k2 = std::string("STR-EXCEPTION ") + ex.what(); }
-                    out += "\t" + s1 + "\t" + k2 + "\t" + (eq ? "equal" : "notequal") + "\t" + s2;
+                    out += "\t" + s1 + "\t" + k2 + "\t" + (eq ? "equal" : "notequal") + "\t" + s2 + "\t" + (typeok ? "typeok" : "typeerr");
                 }
             }
         } catch (std::exception& ex) {
